@@ -114,4 +114,17 @@ def template_terms(name):  # noqa: C901
                         cur = T.ClsTerm(fls[i], f"C{i}", [("x", cur, None), ("n", T.LEAVES["int"], "0")] if fls[i] != "TD" else [("x", cur, None)])
                     out.append(cur)
         return out
+    if name.startswith("P6"):
+        # one subscripted generic G reached at several depths of one class (shared, not cyclic)
+        out = []
+        xs = K if name == "P6" else T.leaves(["int", "datetime", "DC", "EStr"])
+        for x in xs:
+            for G in (T.Seq("list", x), T.Map("dict", T.LEAVES["str"], x), T.Seq("tuple...", x)):
+                forms = [("g", G), ("og", T.Optional(G)), ("dg", T.Map("dict", T.LEAVES["str"], G)), ("lg", T.Seq("list", G))]
+                for k in range(2, len(forms) + 1):
+                    for sub in itertools.combinations(forms, k):
+                        out.append(T.ClsTerm("DC", "Shared", [(n, t, None) for n, t in sub]))
+                        # the deeper occurrence first
+                        out.append(T.ClsTerm("DC", "Shared", [(n, t, None) for n, t in reversed(sub)]))
+        return out
     raise KeyError(name)
